@@ -1,7 +1,15 @@
 package props
 
 import (
+	"bytes"
+	"crypto/ecdsa"
+	"crypto/ed25519"
+	"crypto/elliptic"
+	"crypto/rand"
+	"crypto/rsa"
 	"crypto/x509"
+	"math/big"
+	"net/url"
 	"encoding/hex"
 	"encoding/json"
 	"encoding/pem"
@@ -421,6 +429,32 @@ func TestC10(t *testing.T) {
 						rp := w.CaseFile(l, nil, nil, nil, "nopanic")
 						c10Call(t, "verify.RawTdxQuote+signed-"+k.name+"-shape", rp, func() error { return verify.RawTdxQuote(w.Raw, o) })
 					}
+					// the same deformed document as the exact-name member next to a well-formed, differently spelled twin
+					// (a shape check that looks at one parse and a use that looks at the other must not disagree into a crash)
+					good := k.render(w)
+					twin := gen.FoldVariants(k.member)[di%len(gen.FoldVariants(k.member))]
+					sig := hex.EncodeToString(k.signer(w).Key.SignRaw(doc))
+					for oi, body := range []string{
+						`{"` + k.member + `":` + string(doc) + `,"signature":"` + sig + `","` + twin + `":` + string(good) + `}`,
+						`{"` + twin + `":` + string(good) + `,"` + k.member + `":` + string(doc) + `,"signature":"` + sig + `"}`,
+					} {
+						if (di+oi)%2 == 1 {
+							continue // one of the two orders per variant
+						}
+						w.Resp[k.url(w)] = gen.Response{Header: saved.Header, Body: []byte(body)}
+						o := w.Options(gen.LvlColl, w.NewGetter(), nil)
+						rp := w.CaseFile(gen.LvlColl, nil, nil, nil, "nopanic")
+						c10Call(t, "verify.RawTdxQuote+signed-"+k.name+"-shape-with-twin", rp, func() error { return verify.RawTdxQuote(w.Raw, o) })
+						o2 := w.Options(gen.LvlColl, w.NewGetter(), nil)
+						c10Call(t, "verify.SupportedTcbLevelsFromCollateral+signed-"+k.name+"-shape-with-twin", rp, func() error {
+							m, err := abi.QuoteToProto(w.Raw)
+							if err != nil {
+								return err
+							}
+							_, _, err = verify.SupportedTcbLevelsFromCollateral(m, o2)
+							return err
+						})
+					}
 					w.Resp[k.url(w)] = saved
 					gen.NonTrivial("shape", k.name, names[di], mod)
 					if di%41 == 0 {
@@ -530,6 +564,58 @@ func TestC10(t *testing.T) {
 			}
 		}
 		gen.Exhaustive("30 framings of the PCK CRL and Root CA CRL response bodies", true)
+	})
+
+	// (2d) certificates of unexpected kinds in the issuer-chain headers (nothing has authenticated them when they are
+	// first looked at): RSA, Ed25519, P-384 keys, and certificates whose key algorithm the standard library does not know
+	gen.Direct(t, "issuer-chain-certificate-kinds", func(t *testing.T) {
+		w := gen.NewWorld(base.PKI, gen.NewStream(gen.Seed()+79, "c10hdr")).Build()
+		odd := oddCertificates(t, w)
+		names := make([]string, 0, len(odd))
+		for n := range odd {
+			names = append(names, n)
+		}
+		sort.Strings(names)
+		i := 0
+		for _, u := range []string{gen.TcbInfoURL(w.FmspcHex()), gen.QeIdentityURL, gen.PckCrlURL("platform")} {
+			hk := map[string]string{gen.TcbInfoURL(w.FmspcHex()): gen.HdrTcbInfo, gen.QeIdentityURL: gen.HdrQeID, gen.PckCrlURL("platform"): gen.HdrPckCrl}[u]
+			first := w.PKI.TcbSig
+			if hk == gen.HdrPckCrl {
+				first = w.PKI.Int
+			}
+			for _, n := range names {
+				for pos := 0; pos < 3; pos++ {
+					i++
+					if !gen.ShardOwns(i) {
+						continue
+					}
+					var chain string
+					switch pos {
+					case 0:
+						chain = string(odd[n]) + string(w.PKI.Root.PEM)
+					case 1:
+						chain = string(first.PEM) + string(odd[n])
+					default:
+						chain = string(odd[n]) + string(odd[n])
+					}
+					saved := w.Resp[u]
+					r := saved
+					r.Header = map[string][]string{hk: {url.QueryEscape(chain)}}
+					w.Resp[u] = r
+					for _, l := range []gen.Level{gen.LvlColl, gen.LvlCRL} {
+						o := w.Options(l, w.NewGetter(), nil)
+						c10Call(t, "verify.RawTdxQuote+issuer-chain:"+n, w.CaseFile(l, nil, nil, nil, "nopanic"), func() error { return verify.RawTdxQuote(w.Raw, o) })
+					}
+					w.Resp[u] = saved
+					gen.NonTrivial("hdr-cert", u, n, pos)
+					gen.Class("issuer-chain-certificate-kind")
+					if i%11 == 0 {
+						gen.Sample("issuer-chain-certificate-kind", map[string]any{"header": hk, "certificate": n, "position": pos})
+					}
+				}
+			}
+		}
+		gen.Exhaustive("three issuer-chain headers x certificate kinds x position (signer, root, both)", true)
 	})
 
 	// (3) random: mutated raw quotes, random message edits, arbitrary collateral, arbitrary SGX extension DER.
@@ -687,6 +773,43 @@ func TestC10(t *testing.T) {
 		}
 	})
 	_ = errors.New
+}
+
+// oddCertificates returns PEM certificates of kinds the verifier does not expect in an issuer chain.
+func oddCertificates(t gen.TB, w *gen.World) map[string][]byte {
+	out := map[string][]byte{}
+	mk := func(name string, pub any, priv any) {
+		tmpl := &x509.Certificate{SerialNumber: big.NewInt(77), Subject: w.PKI.Root.X.Subject, NotBefore: gen.Wide.NotBefore, NotAfter: gen.Wide.NotAfter, IsCA: true, BasicConstraintsValid: true, KeyUsage: x509.KeyUsageCertSign | x509.KeyUsageCRLSign}
+		der, err := x509.CreateCertificate(rand.Reader, tmpl, tmpl, pub, priv)
+		if err != nil {
+			gen.HarnessError(t, "cannot create the %s certificate: %v", name, err)
+		}
+		out[name] = pem.EncodeToMemory(&pem.Block{Type: "CERTIFICATE", Bytes: der})
+	}
+	rk, err := rsa.GenerateKey(rand.Reader, 1024)
+	if err != nil {
+		gen.HarnessError(t, "rsa: %v", err)
+	}
+	mk("rsa-root", &rk.PublicKey, rk)
+	ep, es, _ := ed25519.GenerateKey(rand.Reader)
+	mk("ed25519-root", ep, es)
+	p384, _ := ecdsa.GenerateKey(elliptic.P384(), rand.Reader)
+	mk("p384-root", &p384.PublicKey, p384)
+	// the genuine root / signer / intermediate with the key-algorithm identifier altered to one nobody knows
+	// (1.2.840.10045.2.1 -> 1.2.840.10045.2.9) and, separately, the named curve altered
+	for name, c := range map[string]*gen.Cert{"root": w.PKI.Root, "signer": w.PKI.TcbSig, "intermediate": w.PKI.Int} {
+		for kind, oid := range map[string][2][]byte{
+			"unknown-key-algorithm": {{0x2a, 0x86, 0x48, 0xce, 0x3d, 0x02, 0x01}, {0x2a, 0x86, 0x48, 0xce, 0x3d, 0x02, 0x09}},
+			"unknown-curve":         {{0x2a, 0x86, 0x48, 0xce, 0x3d, 0x03, 0x01, 0x07}, {0x2a, 0x86, 0x48, 0xce, 0x3d, 0x03, 0x01, 0x09}},
+		} {
+			der := append([]byte{}, c.DER...)
+			if i := bytes.Index(der, oid[0]); i >= 0 {
+				copy(der[i:], oid[1])
+				out[name+"-with-"+kind] = pem.EncodeToMemory(&pem.Block{Type: "CERTIFICATE", Bytes: der})
+			}
+		}
+	}
+	return out
 }
 
 func min(a, b int) int {
